@@ -77,6 +77,7 @@ type response struct {
 	udpSession     *SessionUDP    // oob data to get egress interface right
 	pcSession      net.Addr       // address to use when writing to a generic net.PacketConn
 	writer         Writer         // writer to output the raw DNS bits
+	writeTimeout   time.Duration  // how long a write to tcp may take
 }
 
 // handleRefused returns a HandlerFunc that returns REFUSED for every request it gets.
@@ -463,6 +464,14 @@ func (srv *Server) getReadTimeout() time.Duration {
 	return dnsTimeout
 }
 
+// getWriteTimeout is the same for the timeout of writes.
+func (srv *Server) getWriteTimeout() time.Duration {
+	if srv.WriteTimeout != 0 {
+		return srv.WriteTimeout
+	}
+	return dnsTimeout
+}
+
 // serveTCP starts a TCP listener for the server.
 func (srv *Server) serveTCP(l net.Listener) error {
 	defer l.Close()
@@ -569,7 +578,7 @@ func (srv *Server) serveUDP(l net.PacketConn) error {
 
 // Serve a new TCP connection.
 func (srv *Server) serveTCPConn(wg *sync.WaitGroup, rw net.Conn) {
-	w := &response{tsigProvider: srv.tsigProvider(), tcp: rw}
+	w := &response{tsigProvider: srv.tsigProvider(), tcp: rw, writeTimeout: srv.getWriteTimeout()}
 	if srv.DecorateWriter != nil {
 		w.writer = srv.DecorateWriter(w)
 	} else {
@@ -808,6 +817,10 @@ func (w *response) Write(m []byte) (int, error) {
 		msg := make([]byte, 2+len(m))
 		binary.BigEndian.PutUint16(msg, uint16(len(m)))
 		copy(msg[2:], m)
+		// A peer that stopped reading must not keep the handler, and with it Shutdown, for ever.
+		if w.writeTimeout > 0 {
+			w.tcp.SetWriteDeadline(time.Now().Add(w.writeTimeout))
+		}
 		return w.tcp.Write(msg)
 	default:
 		panic("dns: internal error: udp and tcp both nil")
